@@ -319,7 +319,7 @@ impl Compiler {
 //@LOOP 1 invariant sym_globals_kept(old(self).symbols, self.symbols), self.loop_h@ == old(self).loop_h@, 0 <= self.locals_bound@ <= sym_max_size(self.symbols), self.height@ == h_fin, hstep(old(self).height@, h_fin, 1), __v@ == stops, consts_syms_kept(*old(self), *self), sym_wf(self.symbols), n0 == old(self).instructions@.len(), while_log(*old(self), log_after_body, pc, **condition, body@), self.instructions@.len() == len_final, len_final <= 0xFFFF, same_loops(*self, *old(self)), self.log@ == log_after_body, self.last_instruction == Some(OpCode::Jump), is_prefix(old(self).instructions@, self.instructions@), n0 < pc, pc + 4 <= len_final - 3, self.instructions@[n0] == opcode_byte(OpCode::Null), self.instructions@[pc] == byte_jif(), u16_at(self.instructions@, pc + 1) == len_final, self.instructions@[pc + 3] == opcode_byte(OpCode::Pop), self.instructions@[len_final - 3] == byte_jump(), u16_at(self.instructions@, len_final - 2) == n0 + 1, forall|j: int| 0 <= j < stops.len() ==> stop_final(*self, n0, pc, len_final, #[trigger] stops[j] as int), forall|j: int, k: int| 0 <= j < k < stops.len() ==> #[trigger] stops[j] + 3 <= #[trigger] stops[k], forall|j: int| 0 <= j < __it.index@ ==> u16_at(self.instructions@, #[trigger] stops[j] as int + 1) == len_final,
 //@ARM file=compiler.rs fn=compile_expression impl=Compiler arm="Expr::While" rules="R1;R4;R13[ip in ctx.break_instructions]"
         proof {
-            self.log = Ghost(self.log@.push(LogEntry { what: LogWhat::Stops(stops), start: n0, end: len_final, depth: 0, contexts: 0 }));
+            self.log = Ghost(self.log@.push(LogEntry { what: LogWhat::Stops(stops), start: n0, end: len_final, depth: 0, contexts: 0, names: 0 }));
             let k = old(self).log@.len() as int;
             let code = self.instructions@;
             assert(self.log@.len() == k + 2 + blen(body@));
